@@ -189,7 +189,7 @@ func deepChain(n, at int, only reflect.Type) *zoo.SelfAny {
 	cur := head
 	for i := 1; i < n; i++ {
 		cur.Next = &zoo.SelfAny{N: int32(i)}
-		if i%97 == 0 {
+		if i%97 == 0 && cur.X == nil {
 			cur.X = []interface{}{int32(i), "filler"}
 		}
 		cur = cur.Next
